@@ -264,7 +264,9 @@ def programs(rng, tier):
         for b in pool:
             for op in ("cmp_size", "cmp_structural", "cmp_cardinality", "cmp_cardinality_strict", "cmp_implies"):
                 P.add([op, bdd_sx(a), bdd_sx(b)])
-    return P.progs
+    # cmp_implies on the operand families that expose task-count blow-ups (shared with C05)
+    from props import C05 as _c05
+    return P.progs + _c05.cmp_implies_programs(rng, tier)
 
 
 # ----------------------------------------------------------------------------- independent oracle
